@@ -99,6 +99,9 @@ private:
 public:
   ghost_variable_manager_with_fixed_naming(get_type_fn get_type)
       : m_get_type(get_type) {}
+  // The function refers to the abstract value that owns this manager:
+  // the owner must rebind it after the manager is copied or moved.
+  void set_get_type(get_type_fn get_type) { m_get_type = get_type; }
   ghost_variable_manager_with_fixed_naming(const ghost_var_manager_t &o) =
       default;
   ghost_variable_manager_with_fixed_naming(ghost_var_manager_t &&o) = default;
@@ -476,6 +479,9 @@ private:
 public:
   ghost_variable_manager_with_variable_naming(get_type_fn get_type)
       : m_get_type(get_type) {}
+  // The function refers to the abstract value that owns this manager:
+  // the owner must rebind it after the manager is copied or moved.
+  void set_get_type(get_type_fn get_type) { m_get_type = get_type; }
   ghost_variable_manager_with_variable_naming(const ghost_var_manager_t &o) =
       default;
   ghost_variable_manager_with_variable_naming(ghost_var_manager_t &&o) =
